@@ -113,7 +113,8 @@ func (s *sess) settingsFlow(lf *ssa.Function) *settingsFlowResult {
 		}
 	})
 	if res.Store == nil {
-		res.Problem = "the Logon handler does not replace Session.LogonSettings"
+		// not in the handler itself: follow the helpers it calls (the replacement may live in an acceptLogon-style method)
+		s.settingsFlowX(lf, res)
 		return res
 	}
 	if res.Problem != "" {
@@ -284,4 +285,62 @@ func (s *sess) sideOfPath(p *an.Path, sub map[ssa.Value]ssa.Value) string {
 		}
 	}
 	return side
+}
+
+// settingsFlowX is settingsFlow over the handler's interprocedural paths (helpers outside the pinned vocabulary expanded).
+func (s *sess) settingsFlowX(lf *ssa.Function, res *settingsFlowResult) {
+	paths, _ := an.EnumPathsX(lf, 4096)
+	seen := map[string]bool{}
+	for _, p := range paths {
+		if p.Return == nil {
+			continue
+		}
+		seq := p.InstrSeq()
+		var st *ssa.Store
+		for _, in := range seq {
+			if x, ok := in.(*ssa.Store); ok && isSessionSettingsAddr(x.Addr) {
+				st = x
+				break
+			}
+		}
+		if st == nil {
+			continue
+		}
+		if res.Store == nil {
+			res.Store = st
+		}
+		obj, _ := an.Unspill(an.ResolveOnPath(st.Val, p)).(*ssa.Alloc)
+		if obj == nil {
+			res.Problem = "the new settings are " + an.RenderOnPath(st.Val, p) + ": not a literal that can be followed"
+			return
+		}
+		side := s.sideOfPath(p, p.Sub)
+		if side == "" {
+			side = "any"
+		}
+		sim := &objSim{obj: obj, env: map[string]string{}, loadVal: map[ssa.Value]string{}, sub: p.Sub}
+		early := ""
+		for _, in := range seq {
+			if in == ssa.Instruction(st) {
+				sim.replaced = true
+				continue
+			}
+			sim.step(in)
+			if call, ok := in.(*ssa.Call); ok && sim.replaced && side != "initiator" && early == "" {
+				if cal := an.StaticCallee(&call.Call); cal != nil && (s.isSendPrimitive(cal) || an.NameOf(cal) == "RejectMessage") && !mirrored(sim.env) {
+					early = "a message is sent at " + s.c.RelPos(call.Pos()) + " after the peer's settings were adopted but before sender/target were mirrored: it leaves with the peer's own identifiers"
+				}
+			}
+		}
+		e := settingsEnv{Side: side, Env: sim.env, Early: early}
+		if k := e.key(); !seen[k] {
+			seen[k] = true
+			res.Envs = append(res.Envs, e)
+		}
+	}
+	if res.Store == nil {
+		res.Problem = "the Logon handler does not replace Session.LogonSettings (neither itself nor in a helper it calls)"
+	} else if len(res.Envs) == 0 && res.Problem == "" {
+		res.Problem = "no returning path of the Logon handler passes the replacement of the settings"
+	}
 }
